@@ -25,7 +25,9 @@ except ImportError:
 
 def _get_color_from_string(a_string: str, colors: bool):
     if colors:
-        hash_str = f"{crc32(a_string.encode('utf-8'))}"
+        # pad the hash to its full width: a short one (crc32 of the empty string, the text
+        # of a task without any resource, is 0) gave an invalid colour such as "#"
+        hash_str = f"{crc32(a_string.encode('utf-8')):010d}"
         return f"#{hash_str[2:8]}"
     return "#F0F0F0"
 
